@@ -1602,6 +1602,16 @@ def constructor_admission(eng: Engine, ctx: Ctx, rid: str):
             n += 1
             bad = [conj for conj in e.dnf if not admits_only_short(conj)]
             ctx.check(not bad, rid, init.qualname, norm(e.node)[:70], expected="raised only for a missing payload or one of fewer than 2 bytes", found=("also under " + guard_text(bad[0])[:100]) if bad else "ok", **eng.loc(init, e.node))
+    # ... and every admitted payload is decoded: the decoding driver is called on every path on which the constructor completes
+    try:
+        drv = eng.attributes_driver.split(".")[-1]
+    except Exception:  # noqa: BLE001
+        drv = None
+    if drv:
+        dcalls = [e for e in se.effects if e.kind == "call" and e.term[2] == ("attr", ("self",), drv)]
+        okd = len(dcalls) == 1 and se.final is not None and not se.final.dead and not dcalls[0].loops and set(map(frozenset, dcalls[0].dnf)) == set(map(frozenset, se.final.dnf))
+        ctx.check(bool(okd), rid, init.qualname, f"self.{drv}() on every completing path", expected="one unconditional call of the decoding driver (apart from the payload checks that raise)",
+                  found=(f"{len(dcalls)} call(s)" if len(dcalls) != 1 else "called only when " + " ∨ ".join(guard_text(c) for c in dcalls[0].dnf)[:120]), **eng.loc(init, dcalls[0].node if dcalls else init.node))
     return n
 
 
